@@ -92,15 +92,43 @@ theorem decodeAllFrom_offsets (start pre : Nat) (s : List (List Bytes)) (h : ∀
       = ((s.map cmdOf).zip (boundaries (start + pre) s), .eof) :=
   decodeAllFrom_stream start pre s h
 
-/-- every reported offset lies within the stream, so if the end of the stream
-    fits an int64 then so does every offset the tool computes (no wrap-around is
-    needed to explain any reported value) -/
-theorem decodeAll_offsets_int64 (start : Nat) (s : List (List Bytes)) (h : ∀ c ∈ s, WF c)
-    (hb : start + (s.flatMap encodeCmd).length < 2^63) :
-    ∀ p ∈ (decodeAll start (s.flatMap encodeCmd)).1, p.2 < 2^63 := by
+/-- every reported offset lies between the start offset and the end of the
+    stream (a statement over natural numbers: by itself it says nothing about
+    Go's int64 arithmetic — that is the next three theorems) -/
+theorem decodeAll_offsets_le_end (start : Nat) (s : List (List Bytes)) (h : ∀ c ∈ s, WF c) :
+    ∀ p ∈ (decodeAll start (s.flatMap encodeCmd)).1,
+      start ≤ p.2 ∧ p.2 ≤ start + (s.flatMap encodeCmd).length := by
   intro p hp
   rw [decodeAll_offsets start s h] at hp
-  exact Nat.lt_of_le_of_lt (expected_snd_le start s p hp) hb
+  exact ⟨expected_snd_ge start s p hp, expected_snd_le start s p hp⟩
+
+/-- Go's wrapping `int64` addition is the mathematical sum when both operands
+    are non-negative and the sum is below 2^63 (explicit no-overflow hypothesis) -/
+theorem int64_add_exact (x y : Int64) (hx : 0 ≤ x.toInt) (hy : 0 ≤ y.toInt)
+    (h : x.toInt + y.toInt < 2^63) : (x + y).toInt = x.toInt + y.toInt :=
+  Resp.int64_add_exact x y hx hy h
+
+/-- the decoder's counter as Go computes it (`d.offset++`, `d.offset += int64(len(b))`
+    in wrapping int64, from any preset) equals the natural-number count of the
+    model as long as the true total stays below 2^63 -/
+theorem counter_int64_exact (pre : Nat) (ks : List Nat) (h : pre + ks.sum < 2^63) :
+    (count64 (Int64.ofNat pre) ks).toInt = (pre + ks.sum : Nat) :=
+  count64_exact pre ks h
+
+/-- the parser's `startOffset + incrOffset`, computed in wrapping int64, is the
+    model's offset for every command of every well-formed stream whose end lies
+    below 2^63 -/
+theorem parser_sum_int64_exact (start : Nat) (s : List (List Bytes)) (h : ∀ c ∈ s, WF c)
+    (hb : start + (s.flatMap encodeCmd).length < 2^63) :
+    ∀ p ∈ (decodeAll start (s.flatMap encodeCmd)).1,
+      (Int64.ofNat start + Int64.ofNat (p.2 - start)).toInt = (p.2 : Nat) := by
+  intro p hp
+  obtain ⟨h1, h2⟩ := decodeAll_offsets_le_end start s h p hp
+  rw [Resp.int64_add_exact _ _ (by rw [int64_ofNat_toInt start (by omega)]; omega)
+        (by rw [int64_ofNat_toInt (p.2 - start) (by omega)]; omega)
+        (by rw [int64_ofNat_toInt start (by omega), int64_ofNat_toInt (p.2 - start) (by omega)]; omega),
+      int64_ofNat_toInt start (by omega), int64_ofNat_toInt (p.2 - start) (by omega)]
+  omega
 
 /-- `proto.Writer.WriteArgs` produces the RESP framing of the arguments' payloads -/
 theorem writeArgs_eq_encodeCmd (as : List Arg) : writeArgs as = encodeCmd (as.map Arg.payload) :=
@@ -130,7 +158,7 @@ example : WF [[83,69,84],[107],[13,10,36]] := by
   refine ⟨by decide, by decide, ?_, ?_⟩
   · intro a ha; simp at ha; rcases ha with rfl | rfl | rfl <;> decide
   · intro b hb; simp at hb; rcases hb with rfl | rfl | rfl <;> decide
--- cut after 20 of 29 bytes (inside the second bulk): io.ErrUnexpectedEOF; cut inside a length line: io.EOF
+-- cut after 19 of 29 bytes (inside the second bulk): io.ErrUnexpectedEOF; cut inside a length line: io.EOF
 example : decodeOne ((encodeCmd [[83,69,84],[107],[13,10,36]]).take 19) = .error .ueof := by decide
 example : decodeOne ((encodeCmd [[83,69,84],[107],[13,10,36]]).take 15) = .error .eof := by decide
 -- a decoder that has already counted 2^32 - 3 bytes
